@@ -285,11 +285,12 @@ def _worker(task):
                 for outs in ([labels[-1]] if labels else []), list(labels[:2]):
                     net = _net(gl, perm, outs)
                     done(net, _check_net(net, rng, n_nodes <= 4, col), nontrivial=n_nodes > 0)
-    elif kind == 'random':
+    elif kind in ('random', 'random-large'):
         _, count, max_nodes, part = task
-        rng = K.rng_for('C20', 'random', part)
+        rng = K.rng_for('C20', kind, part)
         for _i in range(count):
-            n_nodes = rng.randint(3, max_nodes)
+            # 'random-large': 12..max_nodes nodes - behaviour that only changes beyond some size (a counter, a threshold)
+            n_nodes = rng.randint(12, max_nodes) if kind == 'random-large' else rng.randint(3, max_nodes)
             gl = []
             for i in range(n_nodes):
                 a = 0 if i == 0 else rng.choice([0, 1, 2, 2, 3, 4])
@@ -341,8 +342,8 @@ def run_bounded(rep, quick):
         NAME, 'real top_sort / dfs / bfs (both directions, recording enter/exit/unvisited hooks, topsort_unvisited on and off) on '
         'every multigraph DAG (operand tuples with repetition, INPUT and constant sources, all storage orders, all start lists '
         'incl. None/empty/repeated) vs. an independent closure computation; non-trivial = distinct netlist',
-        'quick: all DAGs <=3 nodes, arity<=3, all storage orders, all start subsets + 150 seeded random DAGs <=6 nodes; '
-        'thorough: all DAGs <=4 nodes arity<=3 and 5 nodes arity<=2 (2 storage orders) + 6000 random <=8 nodes', exhaustive=False)
+        'quick: all DAGs <=3 nodes, arity<=3, all storage orders, all start subsets + 150 seeded random DAGs <=6 nodes + 12 of 12..40 nodes; '
+        'thorough: all DAGs <=4 nodes arity<=3 and 5 nodes arity<=2 (2 storage orders) + 6000 random <=8 nodes + 20 per worker of 12..60 nodes', exhaustive=False)
     rep.bounded_driver(
         CYC, 'check_circuit_has_no_cycles on every digraph (self loops, multi-edges, unreachable cycles) built through the unchecked '
         '_emplace_gate x every output subset vs. "a cycle is reachable from the outputs" computed by sink peeling',
@@ -352,6 +353,7 @@ def run_bounded(rep, quick):
         for n in (0, 1, 2, 3):
             tasks.append(('dags', n, 3, True, 0, 1))
         tasks.append(('random', 150, 6, 0))
+        tasks.append(('random-large', 12, 40, 0))
         for n in (1, 2, 3):
             tasks.append(('cyclic', n, 2, 0, 1))
         tasks.append(('cyclic-random', 300, 0))
@@ -364,6 +366,7 @@ def run_bounded(rep, quick):
             tasks.append(('dags', 5, 2, False, p, 32))
         for p in range(16):
             tasks.append(('random', 400, 8, p))
+            tasks.append(('random-large', 20, 60, p))
         for n in (1, 2, 3):
             tasks.append(('cyclic', n, 2, 0, 1))
         for p in range(16):
